@@ -42,6 +42,8 @@ pub fn sigma_full(seed: u64) -> Vec<Vec<u8>> {
         // ill-formed bytes
         b" ", b"\0", b"ab\0", b"a b", b"a.b", b"en*", b"\x80", b"\xff\xfe", b"\xc3\xa9\xc3\xa9",
         b"e\xcc\x81", b"u\0", b"abcd\xc3\xa9",
+        // words the code special-cases, embedded in longer / differently cased tokens
+        b"under", b"undabcde", b"aund", b"und1", b"Und", b"uND", b"trueval", b"atrue", b"tRUE",
     ];
     for m in more {
         if !v.iter().any(|x| x == m) {
@@ -225,7 +227,7 @@ pub const VARIANTS_REDUCED: [&str; 2] = ["", "valencia"];
 /// repetition bound 3 (thorough): three variants in and out of order
 pub const VARIANTS_REP3: [&str; 3] = ["1996-fonipa-valencia", "valencia-1996-fonipa", "fonipa-valencia-fonipa"];
 
-pub const U_SHAPES: [&str; 12] = [
+pub const U_SHAPES: [&str; 15] = [
     "",
     "u-abc",
     "u-abc-zzz",
@@ -238,6 +240,9 @@ pub const U_SHAPES: [&str; 12] = [
     "u-nu-thai-ca-buddhist",
     "u-abc-ca-buddhist",
     "u-abc-zzz-1a-foo-ca",
+    "u-ca-true-nu-thai",
+    "u-nu-thai-ca-true",
+    "u-ca-nu-thai",
 ];
 pub const U_SHAPES_REP3: [&str; 4] = [
     "u-zzz-abc-mmm",
@@ -245,7 +250,7 @@ pub const U_SHAPES_REP3: [&str; 4] = [
     "u-nu-thai-ca-buddhist-1a-foo",
     "u-abc-abc-ca-true-true",
 ];
-pub const T_SHAPES: [&str; 10] = [
+pub const T_SHAPES: [&str; 13] = [
     "",
     "t-de",
     "t-de-Latn-AT-1996",
@@ -256,6 +261,9 @@ pub const T_SHAPES: [&str; 10] = [
     "t-h0-true",
     "t-de-h0-hybrid",
     "t-und-Cyrl-k1-bar-baz",
+    "t-h0-true-k1-bar",
+    "t-k1-bar-h0-true",
+    "t-de-k1-true-h0-hybrid",
 ];
 pub const T_SHAPES_REP3: [&str; 3] = [
     "t-s0-ascii-k1-bar-h0-hybrid",
@@ -730,4 +738,45 @@ impl Space for ListSpace {
     fn describe(&self) -> Value {
         json!({"kind": self.what, "items": self.items.len()})
     }
+}
+
+/// Strings built around the words that the library special-cases (`und`, `true`, and `root`
+/// as a control): every case mask of the word, with every prefix/suffix of total length <= 3
+/// over a small alphabet.  A defect that keys on such a word in a longer or differently cased
+/// subtag (e.g. treating every language that starts with "und" as undetermined) lives here.
+pub fn special_word_strings() -> Vec<Vec<u8>> {
+    const A: [u8; 9] = [b'a', b'd', b'e', b'n', b'r', b'u', b'z', b'0', b'9'];
+    let mut affixes: Vec<Vec<u8>> = vec![vec![]];
+    let mut level: Vec<Vec<u8>> = vec![vec![]];
+    for _ in 0..3 {
+        let mut next = vec![];
+        for l in &level {
+            for a in A {
+                let mut x = l.clone();
+                x.push(a);
+                next.push(x);
+            }
+        }
+        affixes.extend(next.iter().cloned());
+        level = next;
+    }
+    let mut out = std::collections::BTreeSet::new();
+    for w in ["und", "true", "root"] {
+        let wb = w.as_bytes();
+        for mask in 0..(1u32 << wb.len()) {
+            let word: Vec<u8> = wb.iter().enumerate().map(|(i, c)| if (mask >> i) & 1 == 1 { c.to_ascii_uppercase() } else { *c }).collect();
+            for p in &affixes {
+                for q in &affixes {
+                    if p.len() + q.len() > 3 {
+                        continue;
+                    }
+                    let mut x = p.clone();
+                    x.extend_from_slice(&word);
+                    x.extend_from_slice(q);
+                    out.insert(x);
+                }
+            }
+        }
+    }
+    out.into_iter().collect()
 }
